@@ -286,9 +286,99 @@ def _real_op(op: list[str]) -> str:
 		if k == 'param':
 			p = CppViewHelper.Param.parse(op[1])
 			return f'ok {hx(p.var_type)} {hx(p.symbol)} {hx(p.default_value)}'
+		if k in CALLER_OPS:
+			return real_caller(op)
 		raise AssertionError(op)
 	except Exception as e:  # noqa: BLE001
 		return exc_enum(e)
+
+
+CALLER_OPS = {'pluck', 'indexer', 'cvarnew', 'range', 'throw', 'dictcomp', 'dany', 'danyargs', 'qany', 'qanyargs', 'qcontains'}
+
+
+class _Obj:
+	"""attribute bag for the stand-in node / Py2Cpp instance"""
+
+	def __init__(self, **kw: Any) -> None:
+		self.__dict__.update(kw)
+
+
+def _fake_self() -> tuple[Any, dict[str, Any]]:
+	"""A stand-in for the Py2Cpp instance: the real handler methods are called unbound with it, `render` records the template
+	variables (the observation point is the argument of the real `self.render(...)` call)."""
+	captured: dict[str, Any] = {}
+
+	def render(node: Any, template: str, vars: dict[str, Any] | None = None) -> str:
+		captured.update(vars or {})
+		return ''
+
+	fake = _Obj(render=render, make_string_formatters=lambda func_call: [], to_accessible_name=lambda t: 'T',
+		reflections=_Obj(type_of=lambda n: _Obj(attrs=['K', 'V'])))
+	return fake, captured
+
+
+def call_for_range(for_in: str, args_num: int) -> tuple[str, str, str]:
+	from rogw.tranp.implements.cpp.transpiler.py2cpp import Py2Cpp
+	fake, cap = _fake_self()
+	node = _Obj(classification='for', iterates=_Obj(as_a=lambda t: _Obj(arguments=[None] * args_num)))
+	Py2Cpp.proc_for_range(fake, node, ['i'], for_in, [])
+	return str(cap['begin']), str(cap['size']), str(cap['step'])
+
+
+def call_on_throw(throws: str) -> tuple[str, list[str]]:
+	import rogw.tranp.syntax.node.definition as defs
+	from rogw.tranp.implements.cpp.transpiler.py2cpp import Py2Cpp
+	fake, cap = _fake_self()
+	node = _Obj(classification='throw', throws=object.__new__(defs.FuncCall))
+	Py2Cpp.on_throw(fake, node, throws, '')
+	return cap['calls'], list(cap['arguments'])
+
+
+def call_on_dict_comp(projection: str) -> tuple[str, str]:
+	from rogw.tranp.implements.cpp.transpiler.py2cpp import Py2Cpp
+	fake, cap = _fake_self()
+	node = _Obj(classification='dict_comp', projection=None)
+	Py2Cpp.on_dict_comp(fake, node, projection, ['for'], '')
+	return cap['projection_key'], cap['projection_value']
+
+
+def real_caller(op: list[str]) -> str:
+	from rogw.tranp.implements.cpp.transpiler.py2cpp import PatternParser
+	from rogw.tranp.view.helper.decorator import DecoratorHelper, DecoratorQuery
+	k = op[0]
+	if k == 'pluck':
+		return f'ok {hx(PatternParser.pluck_func_call_arguments(op[1]))}'
+	if k == 'indexer':
+		a, b = PatternParser.break_indexer(op[1])
+		return f'ok {hx(a)} {hx(b)}'
+	if k == 'cvarnew':
+		a, b = PatternParser.pluck_cvar_new(op[1])
+		return f'ok {hx(a)} {hx(b)}'
+	if k == 'range':
+		a, b, c = call_for_range(op[1], int(op[2]))
+		return f'ok {hx(a)} {hx(b)} {hx(c)}'
+	if k == 'throw':
+		calls, args = call_on_throw(op[1])
+		return f"ok {hx(calls)} {','.join(hx(a) for a in args)}"
+	if k == 'dictcomp':
+		a, b = call_on_dict_comp(op[1])
+		return f'ok {hx(a)} {hx(b)}'
+	tf = {True: 'true', False: 'false'}
+	if k == 'dany':
+		return f'ok {tf[DecoratorHelper(op[1]).any(*op[2])]}'
+	if k == 'danyargs':
+		return f'ok {tf[DecoratorHelper(op[1]).any_args(op[2])]}'
+	if k == 'qany':
+		return 'ok ' + ','.join(hx(h.decorator) for h in DecoratorQuery.parse(op[1]).any(*op[2]))
+	if k == 'qanyargs':
+		return 'ok ' + ','.join(hx(h.decorator) for h in DecoratorQuery.parse(op[1]).any_args(op[2]))
+	if k == 'qcontains':
+		return f'ok {tf[DecoratorQuery.parse(op[1]).contains(*op[2])]}'
+	raise AssertionError(op)
+
+
+def hxl(xs: list[str]) -> str:
+	return ','.join(hx(x) for x in xs) if xs else '.'
 
 
 def op_line(op: list[str]) -> str:
@@ -297,6 +387,14 @@ def op_line(op: list[str]) -> str:
 		return '\t'.join([k, hx(op[1]), hx(op[2]), op[3]])
 	if k == 'analyze':
 		return '\t'.join([k, hx(op[1]), hx(op[2]), hx(op[3]), op[4]])
+	if k == 'range':
+		return '\t'.join([k, hx(op[1]), op[2]])
+	if k in ('dany', 'qcontains'):
+		return '\t'.join([k, hx(op[1]) if k == 'dany' else hxl(op[1]), hxl(op[2])])
+	if k == 'qany':
+		return '\t'.join([k, hxl(op[1]), hxl(op[2])])
+	if k == 'qanyargs':
+		return '\t'.join([k, hxl(op[1]), hx(op[2])])
 	return '\t'.join([k, *[hx(a) for a in op[1:]]])
 
 
@@ -421,6 +519,130 @@ def stream_fragments(ctx: Ctx, name: str, mode: str, n: int) -> Stream:
 	st.note = (f'{mode} fragments; per fragment: sep × 5 delimiters (one multi-character/empty), last × 4-5 bracket pairs, skip × 3, analyze × 3, '
 		f'parse/bracket/pair × 2, deco, param (+ decorator/parameter/prefix+group texts); {errs} ops ended in an exception on both sides')
 	return st
+
+
+def args_fragments(rng: random.Random, mode: str, i: int, n: int, exclude: str = '') -> list[str]:
+	"""n argument texts: fragments without a top-level comma, never empty"""
+	out = []
+	for j in range(n):
+		items = [it for it in gen_items(rng, (i + j) % 4, mode, 1 + (i + j) % 4, 0.2, exclude) if not (it[0] == 'a' and ',' in it[1])]
+		t = render(items).strip(' ')
+		out.append(t if t else rng.choice(['0', 'n', 'x']))
+	return out
+
+
+def caller_ops(rng: random.Random, mode: str, i: int) -> list[list[str]]:
+	callee = rng.choice(['range', 'f', 'a.b', 'std::vector<int>', 'x->y', 'E', ''])
+	n = rng.randint(0, 4)
+	args = args_fragments(rng, mode, i, n)
+	sep = rng.choice([', ', ',', ' , '])
+	call = f'{callee}({sep.join(args)})'
+	ops: list[list[str]] = [['pluck', call], ['cvarnew', call], ['throw', call]]
+	for k in (1, 2, 3):
+		ops.append(['range', call, str(k)])
+	key = rng.choice(['k', 'a[0]', 'f(x, y)'] + args[:1])
+	ops.append(['indexer', f'{callee}[{sep.join(args)}]'])
+	ops.append(['indexer', f'{call}[{key}]'])
+	ops.append(['dictcomp', '{' + sep.join(args) + '}'])
+	ops.append(['dictcomp', '{' + sep.join(args[:2]) + '}'])
+	decos = [deco_text(rng, mode, i + j)[0] for j in range(rng.randint(1, 4))]
+	if rng.random() < 0.3:
+		decos.append(rng.choice(['a.b', 'Embed.prop', 'x']))
+	paths = [d.split('(')[0] for d in decos]
+	probe = [rng.choice(paths)] + ([rng.choice(['a.b', 'zz', ''])] if rng.random() < 0.5 else [])
+	subject = rng.choice(['', ',', 'a', '(', '=', ' ', 'zz'] + [a[:2] for a in args[:1]])
+	ops.append(['dany', decos[0], probe])
+	ops.append(['danyargs', decos[0], subject])
+	ops.append(['qany', decos, probe])
+	ops.append(['qanyargs', decos, subject])
+	ops.append(['qcontains', decos, probe])
+	return ops
+
+
+def stream_callers(ctx: Ctx, n: int) -> Stream:
+	rng = ctx.sub_rng('block-callers')
+	cases = []
+	for i in range(n):
+		mode = ('clean', 'dirty', 'malformed')[i % 3]
+		if mode == 'malformed':
+			text = gen_malformed(rng, i)
+			ops = [['pluck', text], ['indexer', text], ['cvarnew', text], ['throw', text], ['dictcomp', text], ['range', text, str(rng.randint(1, 3))],
+				['dany', text, [text.split('(')[0]]], ['danyargs', text, rng.choice(['', ',', '('])], ['qcontains', [text, 'a(b)'], ['a']]]
+		else:
+			ops = caller_ops(rng, mode, i)
+		lines = [op_line(op) for op in ops]
+		real = [real_op(op) for op in ops]
+		cases.append(({'kind': mode, 'ops': len(ops)}, lines, real))
+	st = common.correspond('block-callers', cases, 'block', classify=lambda d: d['kind'])
+	st.note = ('the production call sites: PatternParser.pluck_func_call_arguments / break_indexer / pluck_cvar_new directly; Py2Cpp.proc_for_range, on_throw, '
+		'on_dict_comp as the real (unbound) handler methods with a recording `render`; DecoratorHelper.any / any_args and DecoratorQuery.any / any_args / contains')
+	return st
+
+
+def search_callers(ctx: Ctx) -> SearchResult:
+	rng = ctx.sub_rng('law-callers')
+	res = SearchResult('production callers on generated call texts: range(a, b[, c]) / throw E(a, …) / {k, v} / f(args) / recv[key] give back exactly the generated parts (real Py2Cpp handler methods and PatternParser helpers)')
+	hist: dict[str, int] = {}
+	seen: set[str] = set()
+
+	def bad(key: str, what: str, replay: dict[str, Any]) -> None:
+		res.findings.append(Finding(key=key, what=what, replay=replay))
+
+	for i in range(ctx.scale(6000, 60000)):
+		mode = 'clean' if i % 3 else 'dirty'
+		callee = rng.choice(['range', 'f', 'a.b', 'ns::g', 'x->y', 'E'])
+		n = 1 + i % 3
+		# strings may hold every bracket except parentheses (break_last_block does not look at quotes)
+		args = args_fragments(rng, mode, i, n, exclude='()')
+		sep = rng.choice([', ', ',', ' , '])
+		call = f'{callee}({sep.join(args)})'
+		seen.add(call)
+		res.cases += 3
+		hist[f'{mode} args={n}'] = hist.get(f'{mode} args={n}', 0) + 1
+		try:
+			got: Any = guarded(call_for_range, call, n)
+		except Exception as e:  # noqa: BLE001
+			got = exc_enum(e)
+		want = ('0', sep.join(args), '1') if n == 1 else (args[0], args[1], '1') if n == 2 else (args[0], args[1], args[2])
+		if got != want:
+			bad('caller:range', f'proc_for_range({call!r}, {n} arguments) renders begin/size/step {got!r}, the arguments are {want!r}', {'for_in': call, 'args_num': n})
+		try:
+			got = guarded(call_on_throw, call)
+		except Exception as e:  # noqa: BLE001
+			got = exc_enum(e)
+		if got != (callee, args):
+			bad('caller:throw', f'on_throw({call!r}) renders calls/arguments {got!r}, expected {(callee, args)!r}', {'throws': call})
+		from rogw.tranp.implements.cpp.transpiler.py2cpp import PatternParser
+		try:
+			got = guarded(PatternParser.pluck_cvar_new, call)
+		except Exception as e:  # noqa: BLE001
+			got = exc_enum(e)
+		if got != (callee, sep.join(args)):
+			bad('caller:pluck', f'pluck_cvar_new({call!r}) = {got!r}', {'text': call})
+		if n == 2:
+			res.cases += 1
+			proj = '{' + sep.join(args) + '}'
+			try:
+				got = guarded(call_on_dict_comp, proj)
+			except Exception as e:  # noqa: BLE001
+				got = exc_enum(e)
+			if got != (args[0], args[1]):
+				bad('caller:dict_comp', f'on_dict_comp({proj!r}) renders key/value {got!r}, expected {(args[0], args[1])!r}', {'projection': proj})
+		# recv[key]: strings may hold every bracket except square ones
+		key = sep.join(args_fragments(rng, mode, i, 1 + i % 2, exclude='[]'))
+		recv = render(gen_fragment(rng, mode, i % 4, exclude='[]')).strip(' ')
+		res.cases += 1
+		try:
+			got = guarded(PatternParser.break_indexer, f'{recv}[{key}]')
+		except Exception as e:  # noqa: BLE001
+			got = exc_enum(e)
+		if got != (recv, key):
+			bad('caller:indexer', f'break_indexer({recv + "[" + key + "]"!r}) = {got!r}, expected {(recv, key)!r}', {'text': f'{recv}[{key}]'})
+		if i < 2:
+			res.samples.append({'call': call, 'args': args})
+	res.distinct = len(seen)
+	res.histogram = hist
+	return res
 
 
 def corpus_cases(ctx: Ctx) -> Stream:
@@ -803,9 +1025,10 @@ def run(ctx: Ctx) -> int:
 			stream_fragments(ctx, 'block-clean', 'clean', ctx.scale(6000, 40000)),
 			stream_fragments(ctx, 'block-dirty', 'dirty', ctx.scale(4000, 30000)),
 			stream_fragments(ctx, 'block-malformed', 'malformed', ctx.scale(4000, 30000)),
+			stream_callers(ctx, ctx.scale(3000, 30000)),
 		]
 	with ctx.timed('search'):
-		searches = [search_skip(ctx), search_sep(ctx), search_last(ctx), search_decorator(ctx), search_param(ctx), search_bracket(ctx)]
+		searches = [search_skip(ctx), search_sep(ctx), search_last(ctx), search_decorator(ctx), search_param(ctx), search_bracket(ctx), search_callers(ctx)]
 	cap_findings(searches)
 	return common.finish(ctx, proof, streams, searches,
 		translate_ok=translate_ok, translate_msg=translate_msg,
